@@ -30,7 +30,7 @@ CHECKS['C01'] = dict(
          'modular-angle hygiene of every combination of wrapped angles - differences of the right ascension across days are continuous '
          'for every position of the 360->0 seam (R1.2); the Dhuhr term depends on no method parameter and not on weather. '
          'The 10-second agreement with an independent ephemeris is numeric and is not decided.'
-         ' Includes the clock-time conversion rules R11.4/R11.7 (Dhuhr is reported only if its conversion cannot fail) and R20.1 (the GMT offset enters the Julian Day as exactly -gmt/24).',
+         ' Includes the clock-time conversion rules R11.4/R11.7 (Dhuhr is reported only if its conversion cannot fail) and R20.1 (the GMT offset enters the Julian Day as exactly -gmt/24); the None row of the rounding table (unrounded seconds are reported as computed) and R20.5 (no hidden state on the computation path) - the latter two also in C02, C03, C04.',
     note=ASSUME + '; the Sun\'s RA moves < 1.2 deg/day',
     technique='typestate over skeleton worlds + term-level modular-arithmetic (residue) analysis + dependence (non-interference) on reconstructed terms')
 CHECKS['C05'] = dict(
@@ -57,7 +57,7 @@ CHECKS['C11'] = dict(
     technique='conditional constant propagation / abstract interpretation of the converter for every (mode, key) + term pattern checks')
 CHECKS['C13'] = dict(
     text='Wrap clause only (no wrap-induced jumps): modular-angle hygiene R1.2 as in C01. Second-difference and 4-minute bounds and the '
-         'calendar arithmetic are numeric: not decided.',
+         'calendar arithmetic are numeric: not decided. Includes the None row of the rounding table (the property is stated for unrounded seconds) and the 24 h wrap rules of the converter.',
     note=ASSUME + '; the compared angle moves < 1.2 deg/day',
     technique='term-level modular-arithmetic (residue) analysis with seam-position case split')
 CHECKS['C14'] = dict(
